@@ -248,6 +248,11 @@ func RunSeq(t *testing.T, sc SeqCheck) {
 				stats.Label("rejected")
 			}
 			stats.Label("decision." + s.Out.Decision)
+			for _, r := range s.Out.Reasons {
+				if r.Owner != "" {
+					stats.Label("reason." + r.Owner)
+				}
+			}
 		}
 		if sc.NonTrivial == nil || sc.NonTrivial(hist) {
 			stats.NonTrivial(strings.Join(canon, ";"))
